@@ -95,7 +95,7 @@ def start(job):
         return tp.link_iter(iter([f.copy() for f in job['frames']]), srf, memory=job['memory'], link_strategy=job['strategy'])
     cols = ['x', 'y', 'z'][:job['ndim']][::-1]
     if k == 'df_iter':
-        dfs = [pd.DataFrame({**{c: f[:, i] for i, c in enumerate(cols)}, 'frame': t}) for t, f in enumerate(job['frames'])]
+        dfs = job.get('_dfs') or [pd.DataFrame({**{c: f[:, i] for i, c in enumerate(cols)}, 'frame': t}) for t, f in enumerate(job['frames'])]
         if job.get('guess_pos'):
             # pos_columns left to link_df_iter's guess (from ITS first frame: ['y','x'], or ['z','y','x'] when there is a 'z')
             return tp.link_df_iter(dfs, srf, memory=job['memory'], link_strategy=job['strategy'])
@@ -113,6 +113,7 @@ def advance(job, gen):
         return [(round(float(r['y']), 3), round(float(r['x']), 3), int(r['particle'])) for _, r in feat.iterrows()]
     if k == 'iter':
         return [int(x) for x in out[1]]
+    job.setdefault('_kept', []).append(out)          # the caller keeps the yielded table (list(gen)); read again at the end
     return [int(x) for x in out['particle'].values]
 
 
@@ -149,6 +150,17 @@ def run_schedule(jobs, sched):
     shared = share_ranges(jobs)
     gens, outs = {}, {j: [] for j in range(len(jobs))}
     dead = set()
+    # table jobs of one 'share_tables' group are given THE SAME list of per-frame DataFrame objects (re-linking the
+    # frames one has in memory with other parameters)
+    groups = {}
+    for job in jobs:
+        job.pop('_kept', None); job.pop('_dfs', None)
+        g = job.get('share_tables')
+        if g is not None and job['kind'] == 'df_iter':
+            if g not in groups:
+                cols = ['x', 'y', 'z'][:job['ndim']][::-1]
+                groups[g] = [pd.DataFrame({**{c: f[:, i] for i, c in enumerate(cols)}, 'frame': t}) for t, f in enumerate(job['frames'])]
+            job['_dfs'] = groups[g]
     for j in sched:
         job = jobs[j]
         if j in dead:
@@ -165,6 +177,14 @@ def run_schedule(jobs, sched):
     for key, arr in shared.items():
         if [float(x) for x in key] != arr.tolist():
             outs['_modified_argument'] = (list(map(float, key)), arr.tolist())
+    # labels a table job has handed out must still be there when everything has finished
+    for j, job in enumerate(jobs):
+        if job['kind'] == 'df_iter' and job.get('_kept'):
+            late = [[int(x) for x in o['particle'].values] if 'particle' in o.columns else None for o in job['_kept']]
+            early = [o for o in outs[j] if o is not None]
+            if late != early[:len(late)]:
+                outs['_aliasing'] = (j, early, late)
+        job.pop('_kept', None); job.pop('_dfs', None)
     return outs
 
 
@@ -192,7 +212,7 @@ def labels_injective(job, out):
 def jsonable_jobs(jobs, sched, outs=None):
     js = []
     for job in jobs:
-        d = {k: v for k, v in job.items() if k not in ('frames', 'images', 'sr', 'sr_obj')}
+        d = {k: v for k, v in job.items() if k not in ('frames', 'images', 'sr', 'sr_obj', '_kept', '_dfs')}
         if 'frames' in job:
             d['frames'] = [f.tolist() for f in job['frames']]
             d['search_range'] = [str(x) for x in job['sr']] if isinstance(job['sr'], tuple) else str(job['sr'])
@@ -254,6 +274,24 @@ def _run(chk):
             jobs = [make_job(rng, 'find_link'), make_job(rng, 'find_link')]
             sched = [j for j, job in enumerate(jobs) for _ in range(nsteps(job))]
             rng.shuffle(sched)
+        elif rng.random() < 0.12:
+            # the same in-memory frames linked by two table jobs with different parameters (sequentially or interleaved);
+            # the caller keeps every yielded table: what the first job handed out must not change when the second runs
+            a = make_job(rng, 'df_iter')
+            while sum(len(f) for f in a['frames']) < 4 or len(a['frames']) < 2:
+                a = make_job(rng, 'df_iter')
+            a['guess_pos'] = False
+            b = dict(a, memory=rng.choice([0, 1, 2, 3]))
+            if isinstance(a['sr'], tuple):
+                b['sr'] = tuple(r * rng.choice([Fraction(1, 2), Fraction(2)]) for r in a['sr'])
+            else:
+                b['sr'] = a['sr'] * rng.choice([Fraction(1, 2), Fraction(3, 2), Fraction(2)])
+            b = c02.safe_strategy(b)
+            a['share_tables'] = b['share_tables'] = 1
+            jobs = [a, b]
+            sched = [j for j, job in enumerate(jobs) for _ in range(nsteps(job))]
+            if rng.random() < 0.5:
+                rng.shuffle(sched)
         elif rng.random() < 0.15:
             # a find_link job in which a trajectory is born in a later frame, while another job (of any kind) starts
             # and advances in between: the newborn must get an id from ITS job
@@ -329,12 +367,17 @@ def _run(chk):
         if '_modified_argument' in inter:
             chk.violation('search_range array modified', 'a linking call modified the search_range array it was given: %s -> %s (other jobs using the same array are affected)' % inter.pop('_modified_argument'),
                           dict(kind='schedule', case=jsonable_jobs(jobs, sched)))
+        if '_aliasing' in inter:
+            jj, early, late = inter.pop('_aliasing')
+            chk.violation('table job: labels already handed out changed afterwards',
+                          'link_df_iter job %d under schedule %s: the tables it yielded carried labels %s and carry %s after the other jobs ran' % (jj, sched, early, late),
+                          dict(kind='schedule', job=jj, case=jsonable_jobs(jobs, sched)))
         for o in (solo, again):
             if isinstance(o, dict):
-                o.pop('_modified_argument', None)
+                o.pop('_modified_argument', None); o.pop('_aliasing', None)
         for v in solo.values():
             if isinstance(v, dict):
-                v.pop('_modified_argument', None)
+                v.pop('_modified_argument', None); v.pop('_aliasing', None)
         chk.count(('sched', jsonable_jobs(jobs, sched)), len(set(sched)) >= 2 and len(sched) >= 4)
         chk.tally('jobs=%d' % len(jobs))
         for j, job in enumerate(jobs):
